@@ -122,7 +122,7 @@ func Quiet() {
 	l := logger.GetLogger()
 	l.SetOutput(io.Discard)
 	v := os.Getenv("VERIF_LOGTRACE")
-	if v == "1" || (v != "0" && len(os.Args) > 1 && os.Args[1] == "record") {
+	if v == "1" || (v != "0" && len(os.Args) > 1 && strings.HasPrefix(os.Args[1], "record")) {
 		l.SetLevel(logrus.TraceLevel)
 	}
 }
